@@ -1,2 +1,15 @@
 import TlxVerif.Props.C16
+#print axioms TlxVerif.C16.history_refines
+#print axioms TlxVerif.C16.ringbuffer_is_bounded_deque
+#print axioms TlxVerif.C16.live_eq_stored
+#print axioms TlxVerif.C16.slot_alive_iff_stored
+#print axioms TlxVerif.C16.lifetimes_exact
+#print axioms TlxVerif.C16.dtor_leaves_nothing
 #print axioms TlxVerif.C16.roundUpPow2_ge
+#print axioms TlxVerif.C16.step_refines
+#print axioms TlxVerif.C16.sv_new
+#print axioms TlxVerif.C16.sv_resize
+#print axioms TlxVerif.C16.sv_resize_contents
+#print axioms TlxVerif.C16.sv_destroy
+#print axioms TlxVerif.C16.sv_moveAssign
+#print axioms TlxVerif.C16.sv_fill_set
